@@ -20,6 +20,7 @@ type propDef struct {
 	SweepExcept []string `json:"sweep_except"` // regexps excluded from the sweep
 	Special     []string `json:"special"`      // special analyses: "next-skeleton", "effects", "frames"
 	SweepList   string   `json:"sweep_list"`   // file (relative to /verif) listing the functions of the pinned sweep
+	Frames      bool     `json:"frames"`       // the sweep is the write-frame sweep (C05/C06), not the safety sweep
 	ScopeFiles  []string `json:"scope_files"`  // source files whose functions are in scope (for not_under_contract)
 	MinObligs   int      `json:"min_obligations"`
 	Note        string   `json:"note"`
@@ -231,6 +232,9 @@ func cmdCheck(args []string) int {
 			// every safety and call-site obligation of a function verified for this property is
 			// a supporting obligation of the property (a failed one would make later ones vacuous)
 			opts := &fnOpts{houdini: true, props: []string{id}, spec: e.special[j.key]}
+			if pd.Frames && sweepSet[j.key] {
+				opts.frames, opts.noSafety, opts.props = true, true, nil
+			}
 			j.res = e.genFunc(e.funcs[j.key], opts, cfg)
 		}(jobs[i])
 	}
@@ -601,6 +605,8 @@ func (r *report) runSpecial(name string) {
 	switch name {
 	case "next-skeleton":
 		r.nextSkeleton()
+	case "globals-write":
+		r.globalsWrite()
 	default:
 		r.extraNotes = append(r.extraNotes, "unknown special analysis "+name)
 	}
